@@ -154,6 +154,9 @@ func runC18(c *Ctx) {
 		if regexp.MustCompile(`^strings\.Split\(.*, "="\)\[1\]$`).MatchString(inner) {
 			lossy = append(lossy, "value is strings.Split(pair, \"=\")[1]: everything after a second '=' is dropped (a=x=yz is judged as x)")
 		}
+		if m := regexp.MustCompile(`^strings\.SplitN\(.*, "=", (-?\d+)\)\[1\]$`).FindStringSubmatch(inner); m != nil && m[1] != "2" {
+			lossy = append(lossy, "value is strings.SplitN(pair, \"=\", "+m[1]+")[1]: everything after a second '=' is dropped (a=x=yz is judged as x)")
+		}
 		// decode before split: QueryUnescape(...) appears as the subject of a Split/Index
 		if regexp.MustCompile(`strings\.(Split|SplitN|Index|Cut)\([^"]*net/url\.(QueryUnescape|PathUnescape)\(`).MatchString(inner) {
 			decodeFirst = append(decodeFirst, "the whole URL is percent-decoded before it is split at '?', '&', '=': an encoded delimiter inside a value (a=x%26yz) truncates the value")
@@ -430,6 +433,24 @@ func runC18VarKinds(c *Ctx) {
 				}
 			}
 		}
+	}
+	// the Var entry point admits floats: it asks with the float flag set (struct fields and map
+	// values of float kinds are judged by the same rules, so Var must let them through as well)
+	if vv := p.Method("valid", "VVar", "Valid"); vv != nil {
+		calls := callsIn(vv, fnName(fn))
+		okFlag := len(calls) > 0
+		for _, call := range calls {
+			c.Sites++
+			el := variadicElems(call.Call.Args[1])
+			if len(el) != 1 {
+				okFlag = false
+				continue
+			}
+			if b, known := constBool(el[0]); !known || !b {
+				okFlag = false
+			}
+		}
+		c.Check(okFlag, "C18-VARKINDS", fnName(vv), "admits-floats", vv.Pos(), "the variable entry point asks ReflectKindIsNum with the float flag set", "the variable entry point does not ask ReflectKindIsNum(kind, true): float32/float64 values are refused by Var (\"src no support\") although the same value is judged when it is a struct field or a map value")
 	}
 	switch {
 	case len(unk) > 0:
